@@ -292,6 +292,46 @@ func driveRend(args []string) error {
 		switch fam {
 		case "geometry", "arcs":
 			rng := newRand(201)
+			if fam == "arcs" {
+				// directed (round 10): a relative arc that is not subdivided - a zero radius (a straight line), or inside a path
+				// that is not drawn - and, later, an absolute arc: it ends at its own end point (in the same path, in the next
+				// one, after a Reset)
+				arc := func(op string, rx, ry, rot float32, la, sw int, x, y float32) Call {
+					c := mkCall(op, rx, ry, rot, x, y)
+					c.Fl = []int{la, sw}
+					return c
+				}
+				creg := func(c []int) Call { x := mkCall("SetCReg"); x.C = c; return x }
+				k := 0
+				for _, early := range []Call{arc("RelArcTo", 0, 3, 0, 0, 1, 5, 2), arc("RelArcTo", 4, 0, 0.125, 1, 0, -3, 4), arc("RelArcTo", 0, 0, 0, 0, 0, 2, 2), arc("RelArcTo", 5, 3, 0.25, 1, 1, 4, -2)} {
+					for _, later := range []Call{arc("AbsArcTo", 6, 4, 0, 0, 1, 8, 6), arc("AbsArcTo", 5, 5, 0.125, 1, 0, -7, 3)} {
+						for variant := 0; variant < 4; variant++ {
+							k++
+							cfg := []rendCfg{cfgs[0], cfgs[7], cfgs[5]}[k%3]
+							prog := []Call{resetCall(cfg.vb, defaultPal())}
+							disabled := early.F[0] != f32j(0) && early.F[1] != f32j(0)
+							if disabled {
+								prog = append(prog, creg([]int{0, 0, 0, 0, 0})) // transparent: the path is not drawn
+							}
+							prog = append(prog, mkCall("StartPath", -10, -5), mkCall("RelLineTo", 2, 1), early)
+							switch {
+							case disabled || variant == 1:
+								prog = append(prog, mkCall("ClosePathEndPath"), creg([]int{0, 9, 8, 7, 255}), mkCall("StartPath", -9, -4))
+							case variant == 2:
+								prog = append(prog, mkCall("ClosePathEndPath"), resetCall(cfg.vb, defaultPal()), mkCall("StartPath", -9, -4))
+							case variant == 3:
+								prog = append(prog, mkCall("RelQuadTo", 1, 1, 2, 0), mkCall("AbsLineTo", -8, -3))
+							}
+							prog = append(prog, later, mkCall("RelLineTo", 1, 1), mkCall("ClosePathEndPath"))
+							t := newTracedRenderer(sh.Next(), fmt.Sprintf("unsubdivided-rel-arc-then-abs-arc/%d", k), cfg.rect)
+							runProg(t, prog)
+							stats["arcs.programs"]++
+							stats["arcs.rel_then_abs"]++
+							stats["arcs.calls"] += t.n
+						}
+					}
+				}
+			}
 			for i := 0; i < *n; i++ {
 				cfg := cfgs[i%len(cfgs)]
 				if i%3 == 2 {
